@@ -9,6 +9,9 @@ TRUSTED = [
     "the deterministic scheduler of the harness (one request runs at a time between parking points); SQLite standing in for the production database",
     "tools/extract/locks.go: lexical lock-state walker (an access it cannot classify fails the obligation)",
     "Go race detector for the randomised concurrent mixes",
+    "the wrapping database/sql driver of harness/kmd/c16_stall.go (delegates to go-sqlite3; numbers and holds operations) stands for a slow primary database; the hold time is the longest time.After(..) argument of storage.go as resolved by regular expressions in lib/checks/c16.py (+1.5 s, capped at 15 s quick / 40 s thorough): a longer time-out is not outlasted",
+    "tools/extract/c16_copies.go: syntactic (no type checker): lock-holding types are the package's struct declarations with a sync / atomic value field; copies made through interfaces, closures capturing a dereferenced value or reflection are not seen",
+    "the fake OAuth2 provider of the harness accepts any authorization code any number of times",
 ]
 
 YIELD = 'verifYield("%s")'
@@ -110,6 +113,10 @@ def storage_hold_ms(ctx):
     cap = 40000 if ctx.tier == "thorough" else 15000
     return int(min(longest + 1500, cap)), found
 
+def _frame_fn(line):
+    m = re.match(r"^(\S.*)\(.*\)$", line)
+    return m.group(1) if m else line
+
 FATAL_MAP = re.compile(r"^fatal error: (concurrent map [a-z ]+)$", re.M)
 
 def absorb_fatal(ctx, log, pid="C16"):
@@ -130,7 +137,7 @@ def absorb_fatal(ctx, log, pid="C16"):
             loc = lines[i + 1].strip() if i + 1 < len(lines) else ""
             base = os.path.basename(loc.split(":")[0])
             if ("/keymaster/" in loc or loc.startswith(core.REPO)) and not base.startswith("zz_verif_") and "/go/pkg/mod/" not in loc:
-                return racelog.short_fn(re.sub(r"\(.*$", "", l.strip())), "%s:%s" % (base, loc.split(":")[1].split(" ")[0] if ":" in loc else "?")
+                return racelog.short_fn(_frame_fn(l.strip())), "%s:%s" % (base, loc.split(":")[1].split(" ")[0] if ":" in loc else "?")
         return None
     first = None
     others = []
@@ -141,14 +148,22 @@ def absorb_fatal(ctx, log, pid="C16"):
         if first is None and "[running]" in b.split("\n")[0]:
             first = h or ("?", "?")
             continue
-        if h and re.search(r"^runtime\.map\w+", b, re.M):
-            others.append(h)
+        if not h:
+            continue
+        head = b.split("\n")[0]
+        if re.search(r"^(runtime\.map\w+|internal/runtime/maps\.)", b, re.M):
+            others.insert(0, h)          # inside a map operation right now
+        elif re.search(r"\[(runnable|running)", head):
+            lines = [l for l in b.split("\n")[1:] if l.strip()]
+            # executing keymaster code (the map access may be inlined into it)
+            if len(lines) > 1 and ("/keymaster/" in lines[1] or lines[1].strip().startswith(core.REPO)) and "zz_verif_" not in lines[1]:
+                others.append(h)
     first = first or ("?", "?")
     other = others[0] if others else ("?", "?")
     fns = sorted([first[0], other[0]])
     ctx.hits.append({"key": "%s:fatal-concurrent-map:%s|%s" % (pid, fns[0], fns[1]), "kind": "schedule",
                      "oracle": "the process survives its requests: the Go runtime aborts the whole daemon when two goroutines are inside one map at once",
-                     "what": "fatal error: %s — noticed in %s (%s); another goroutine inside a map operation: %s (%s)" % (m.group(1), first[0], first[1], other[0], other[1]),
+                     "what": "fatal error: %s — noticed in %s (%s); another goroutine inside (or about to enter) a map operation: %s (%s)" % (m.group(1), first[0], first[1], other[0], other[1]),
                      "case": {"sites": [list(first), list(other)]}, "observed": log[m.start():m.start() + 3000]})
     return 1
 
